@@ -447,6 +447,9 @@ func FaultGrid(d *fw.Driver, res *fw.Result, seed int64, thorough bool, prop str
 		grid = g2
 	}
 	for gi, c := range grid {
+		if res.Enough() {
+			return nil
+		}
 		if err := faultOne(d, res, seed+int64(gi)*31, c.kind, c.pos, c.dir, c.frame, c.double, prop); err != nil {
 			return err
 		}
@@ -962,7 +965,7 @@ func WireCounts(res *fw.Result, run *Runner, sig string) {
 
 var yieldSites = []string{"call.enq", "main.take", "main.errcheck", "main.register", "w.begin", "main.wrote", "reader.msg", "reader.queue",
 	"fe.resp.lookup", "fe.resp.prechan", "fe.resp.deliver", "fe.resp.delete", "fe.resp.chanreg", "fe.chval", "sink.pushed", "buf.in", "reconn.begin",
-	"cif.send", "cif.clear", "reconn.spawn", "rc.dial", "rc.swap", "main.incoming", "reader.err", "call.recv", "main.pong"}
+	"cif.send", "cif.clear", "reconn.spawn", "rc.sleep", "rc.dial", "rc.swap", "main.incoming", "reader.err", "call.recv", "main.pong"}
 
 // closeWorkload runs the mixed workload; if gate != nil the closer is fired when the gate is reached.
 func closeWorkload(d *fw.Driver, res *fw.Result, seed int64, site string, nth int, sig string) (counts map[string]int, err error) {
@@ -998,7 +1001,9 @@ func closeWorkload(d *fw.Driver, res *fw.Result, seed int64, site string, nth in
 				case <-closerDone:
 				case <-time.After(15 * time.Millisecond):
 				}
-				g.Release()
+				if site != "rc.sleep" {
+					g.Release()
+				}
 			case <-run.ctx.Done():
 			}
 		}()
@@ -1066,6 +1071,11 @@ func closeWorkload(d *fw.Driver, res *fw.Result, seed int64, site string, nth in
 	// a dial that was already in progress when the closer returned may still land: let it
 	time.Sleep(15 * time.Millisecond)
 	accepts := run.E.PX.Accepted()
+	if g != nil && site == "rc.sleep" {
+		// the redial goroutine was held just before its backoff sleep while the closer ran and returned: only
+		// now does it sleep — whatever it dials after waking up is a reconnection attempted after the close
+		g.Release()
+	}
 	// (2) every call that was in flight has returned
 	run.mu.Lock()
 	calls := append([]*Call{}, run.All...)
@@ -1126,6 +1136,9 @@ func CloseEverywhere(d *fw.Driver, res *fw.Result, seed int64, thorough bool) er
 		per = 8
 	}
 	for _, site := range yieldSites {
+		if res.Enough() {
+			return nil
+		}
 		n := counts[site]
 		if n == 0 {
 			continue
